@@ -15,7 +15,12 @@ for D in "$@"; do
     RULES="$RULES $(head -1 "$rp" | grep -o "rule '[^']*'" | head -1)"
     head -1 "$rp" | grep -q "no longer shown" && RULES="$RULES correspondence-only"
   done
-  if echo "$OUT" | grep -q "^VIOLATION"; then echo "$ID CAUGHT $RULES" >> "$LOG"; else echo "$ID ESCAPED $(echo $OUT | cut -c1-80)" >> "$LOG"; fi
+  if grep -q '"benign": true' "$D/meta.json" 2>/dev/null; then
+    # a benign change: quiet is right, "no-failing-input-found" is tolerated, a concrete replay is a false alarm
+    if ! echo "$OUT" | grep -q "^VIOLATION"; then echo "$ID BENIGN-QUIET" >> "$LOG";
+    elif echo "$OUT" | grep -v "no-failing-input-found" | grep -q "^VIOLATION"; then echo "$ID BENIGN-FALSE-ALARM $RULES" >> "$LOG";
+    else echo "$ID BENIGN-NO-FAILING-INPUT $RULES" >> "$LOG"; fi
+  elif echo "$OUT" | grep -q "^VIOLATION"; then echo "$ID CAUGHT $RULES" >> "$LOG"; else echo "$ID ESCAPED $(echo $OUT | cut -c1-80)" >> "$LOG"; fi
   git -C /repo worktree remove --force "$W"
   H=$(python3 -c "import hashlib,sys;print(hashlib.blake2b(sys.argv[1].encode(),digest_size=4).hexdigest())" "$W")
   rm -rf /verif/.build/harness-$H /verif/.build/target-$H /verif/.build/target-$H-*
